@@ -99,6 +99,21 @@ fn handle(req: &Value) -> Value {
             });
             r.unwrap_or_else(|_| json!({"panic": true}))
         }
+        "space_knn" => {
+            let pos: Vec<DVec3> = req["positions"].as_array().unwrap().iter().map(v3).collect();
+            let k = req["k"].as_u64().unwrap() as usize;
+            let r = std::panic::catch_unwind(|| h::space_knn(v3(&req["anchor"]), v3(&req["width"]), f(&req["max_cell_width"]), &pos, k));
+            match r { Ok(nn) => json!({"knn": nn}), Err(_) => json!({"panic": true}) }
+        }
+        "space_cells" => {
+            let cells: Vec<Value> = h::space_cells(v3(&req["anchor"]), v3(&req["width"]), f(&req["max_cell_width"])).iter().map(|(l, w)| json!({"loc": j3(*l), "width": j3(*w)})).collect();
+            json!({"cells": cells})
+        }
+        "bounding_sphere" => {
+            let pts: Vec<DVec3> = req["points"].as_array().unwrap().iter().map(v3).collect();
+            let r = std::panic::catch_unwind(|| h::bounding_sphere(&pts, req["exact"].as_bool().unwrap_or(false)));
+            match r { Ok((c, rad)) => json!({"c": j3(c), "r": rad}), Err(_) => json!({"panic": true}) }
+        }
         "halfspace_clip" => {
             let hs = meshless_voronoi::HalfSpace::new(v3(&req["n"]), v3(&req["p"]), None, None);
             json!({"r": hs.clip(v3(&req["v"]))})
